@@ -526,7 +526,7 @@ def run(ctx):
                        'entries (exact); helper oracle: both variants vs independent formulas / numpy.linalg for n in 1..4 and trailing '
                        'shapes (),(3,),(2,3),(2,2,2); NonlinearForm: random meshes/elements/integrands/linearisation points; '
                        'non-trivial = extent >= 2 resp. at least 2 cells; distinct by content')
-    ctx.extra['exhaustive'] = ('helper theorems: ring/field identities for ALL entries; extents 2 and 3 (closed forms) or every n '
+    ctx.extra['exhaustive_note'] = ('helper theorems: ring/field identities for ALL entries; extents 2 and 3 (closed forms) or every n '
                                '(einsum helpers, finite-sum algebra); NonlinearForm bookkeeping: all Nbfun, nt, dof tables by induction over folds')
     rng = np_seed(ctx)
     ctx.ensure_static()
